@@ -16,6 +16,7 @@ from .values import (
     VBool,
     VGlobal,
     VInt,
+    VItState,
     VRef,
     VSeq,
     VTuple,
@@ -41,6 +42,8 @@ def mutated_receivers(stmts) -> set[str]:
             if (isinstance(n, ast.Call) and isinstance(n.func, ast.Attribute) and isinstance(n.func.value, ast.Name)
                     and n.func.attr in ("append", "extend", "pop", "insert", "remove", "clear", "add", "discard", "update", "setdefault", "sort", "reverse")):
                 names.add(n.func.value.id)
+            if isinstance(n, ast.Call) and isinstance(n.func, ast.Name) and n.func.id == "next" and n.args and isinstance(n.args[0], ast.Name):
+                names.add(n.args[0].id)
     return names
 
 
@@ -380,7 +383,37 @@ class Stmts:
         if s.orelse:
             raise Unsupported("while/else")
         n = self.loop_ordinal(s)
+        bound = getattr(self.cur_spec(), "unroll", {}).get(n)
+        if bound is not None:
+            return self._while_unrolled(s, st, bound, n)
         return self._loop(n, s, st, kind="while")
+
+    def _while_unrolled(self, s, st, bound, n):
+        """
+        Complete unrolling: the loop is executed iteration by iteration; it is accepted only if EVERY path has left the loop within `bound`
+        iterations (then no invariant is needed and nothing is cut); otherwise the unit is UNDECIDED.
+        """
+        outs: list[Out] = []
+        cur = [st]
+        for _ in range(bound + 1):
+            nxt = []
+            for c in cur:
+                for r in self._vals(self.eval(s.test, c), outs):
+                    for taken, bs in self.split(r.st, self.truthy(r.val, r.st)):
+                        if not taken:
+                            outs.append(Out("normal", bs))
+                            continue
+                        for o in self.exec_block(s.body, bs):
+                            if o.kind in ("normal", "continue"):
+                                nxt.append(o.st)
+                            elif o.kind == "break":
+                                outs.append(Out("normal", o.st))
+                            else:
+                                outs.append(o)
+            cur = nxt
+            if not cur:
+                return outs
+        raise Unsupported(f"loop #{n} did not terminate on every path within the declared unrolling bound {bound}")
 
     def s_For(self, s, st):
         if s.orelse:
@@ -438,7 +471,7 @@ class Stmts:
         if kind == "while":
             body_names |= assigned_names([ast.Expr(s.test)])
         # lists held BY VALUE in a local name (list displays / comprehension results) are rebound by x.append(...): they change in the loop too
-        body_names |= {nm for nm in mutated_receivers(s.body) if isinstance(st.env.get(nm), (VTuple, VSeq))}
+        body_names |= {nm for nm in mutated_receivers(s.body) if isinstance(st.env.get(nm), (VTuple, VSeq, VItState))}
         h = st.fork()
         for name in body_names:
             if name in h.env:
@@ -511,6 +544,10 @@ class Stmts:
             raise Unsupported(f"cannot havoc local `{name}` initialised to None (give it a type in the contract)")
         if isinstance(v, VSeq):
             return VSeq(st.fresh("hv." + name, v.arr.sort()), st.fresh_int("hv.n." + name), v.ek, v.ecls)
+        if isinstance(v, VItState):
+            p = st.fresh_int("hv.pos." + name)
+            st.assume(z3.And(p >= 0, p <= v.seq.n))
+            return VItState(v.seq, p)
         if isinstance(v, VTuple) and v.is_list:
             # a local list (held by value) that the loop appends to: arbitrary contents, non-negative length
             n = st.fresh_int("hv.n." + name)
